@@ -429,11 +429,19 @@ def proof_audit(prop, tier="quick"):
 # known findings
 
 def load_known(prop):
-    p = VERIF / "known_findings.json"
-    if not p.exists():
-        return []
-    data = json.loads(p.read_text())
-    return [e for e in data.get("findings", []) if e.get("property") == prop]
+    """known_findings.json (committed, never written at run time); known_findings.d/Cxx.json are the
+    per-property sources it is merged from (tools/mkmanifest.py) and are read too, de-duplicated by id."""
+    out, seen = [], set()
+    paths = [VERIF / "known_findings.json", VERIF / "known_findings.d" / ("%s.json" % prop)]
+    for p in paths:
+        if not p.exists():
+            continue
+        data = json.loads(p.read_text())
+        for e in data.get("findings", []):
+            if e.get("property") == prop and e.get("id") not in seen:
+                seen.add(e.get("id"))
+                out.append(e)
+    return out
 
 
 # ----------------------------------------------------------------------------------------------
